@@ -239,20 +239,26 @@ MUTANTS = [
     ("C01-auto-update-targets-direct-outputs", "liesel/model/nodes.py",
      "            if self.model.auto_update:\n                self.model.update()\n",
      "            if self.model.auto_update:\n                self.model.update(*(n.name for n in self.outputs))\n"),
-    ("C01-targeted-update-skips-clean-looking-targets", "liesel/model/model.py",
-     "                if node in inputs and node.outdated:\n                    node.update()\n",
-     "                if node in inputs and node._outdated:\n                    node.update()\n"),
-    ("C01-full-update-stops-at-first-clean-node", "liesel/model/model.py",
-     """            for node in self._sorted_nodes:
-                if node.outdated:
-                    node.update()
-        else:""",
-     """            seen_dirty = False
-            for node in self._sorted_nodes:
-                if node.outdated:
-                    seen_dirty = True
-                    node.update()
-                elif seen_dirty and not node.all_input_nodes():
-                    break
-        else:"""),
+    ("C01-recursive-inputs-stop-at-transient-nodes", "liesel/model/model.py",
+     "            nodes.extend(node.all_input_nodes())\n            visited.append(node)\n\n        return visited\n",
+     "            if not isinstance(node, (TransientIdentity, InputGroup)) or node is self._nodes[name]:\n                nodes.extend(node.all_input_nodes())\n            visited.append(node)\n\n        return visited\n"),
+    # ------------------------------------------------------------------ C17
+    ("C17-simulation-order-without-reversed-at-edge", "liesel/model/model.py",
+     """                if isinstance(node, Dist) and _input is node.at:
+                    edges.append((node, _input))
+                else:
+                    edges.append((_input, node))""",
+     """                edges.append((_input, node))"""),
+    ("C17-sample-shape-off-by-one", "liesel/model/model.py",
+     "            sample_shape = value_shape[:sample_index]\n", "            sample_shape = value_shape[: sample_index + 1]\n"),
+    ("C17-skip-only-by-dist-name", "liesel/model/model.py",
+     """            and node.at.name not in skip
+            and (node.var is not None and node.var.name not in skip)""",
+     """            and node.var is not None"""),
+    ("C17-update-only-positional-inputs", "liesel/model/model.py",
+     "                input_names = [n.name for n in (*dist.inputs, *dist.kwinputs.values())]\n",
+     "                input_names = [n.name for n in dist.inputs]\n"),
+    ("C17-same-seed-for-all-dists", "liesel/model/model.py",
+     "        seeds = jax.random.split(seed, len(dists))\n\n        for dist, seed in zip(dists, seeds):",
+     "        seeds = [seed for _ in dists]\n\n        for dist, seed in zip(dists, seeds):"),
 ]
